@@ -55,6 +55,12 @@ func run(r *lib.Run) {
 	r.SetRule("distinct tuple = (storage mode, kind, class, fault/malformed variant, blob present before (how), first offset, " +
 		"instance class, metadata class, uuid case, chunking, empty-message positions, finish_write placement, size class, extent)")
 	n := r.N(500, 12000)
+	if raceEnabled {
+		// The race detector makes every call an order of magnitude dearer (shadow
+		// memory for multi-MiB buffers); the -race build explores a fixed smaller
+		// number of calls, still a pure function of seed and tier.
+		n = r.N(250, 2000)
+	}
 	specs := genSpecs(r, n)
 	r.Extra("calls_generated", len(specs))
 
